@@ -206,6 +206,76 @@ def run_all(run, cases, binary, jbin):
         wl.rmtree(tmp)
 
 
+UNPRIV = ['setpriv', '--reuid', '65534', '--regid', '65534', '--clear-groups']
+
+
+def unreadable_subfolder_family(run, binary):
+    """A sub-folder that cannot be read for lack of PERMISSION (EACCES; modes 0311 and 0000), on the source or on the destination side, the
+    sync run as an unprivileged user: "a read error on any directory surfaces as an error instead of a silently shorter listing".  Oracle:
+    the run must not report success; nothing outside the destination, nothing on the source and nothing inside the unreadable folder
+    changes (a boss that plans with an incomplete picture of the destination writes through the symlinks that are really there)."""
+    import tempfile, shutil
+    import e2e
+    if os.geteuid() != 0 or not shutil.which('setpriv'):
+        run.count('unreadable-subfolder:skipped(no root / setpriv)')
+        return
+    if e2e.run_cli(binary, ['--version'], prefix=UNPRIV, timeout=30)['exit'] != 0:
+        run.count('unreadable-subfolder:skipped(binary not reachable for uid 65534)')
+        return
+    T = 1_700_000_000_000_000_000
+    os.chmod(vlib.CACHE, 0o755)
+    base = tempfile.mkdtemp(prefix='c17ur_', dir=vlib.CACHE)
+    os.chmod(base, 0o755)
+    try:
+        for side in ('src', 'dest'):
+            for mode in (0o311, 0o000):
+                for depth in (1, 2):
+                    root = tempfile.mkdtemp(prefix='u_', dir=base)
+                    os.chmod(root, 0o777)
+                    docs = 'docs' if depth == 1 else 'top/docs'
+                    tree = {'': {'k': 'dir'}, 'a.txt': {'k': 'file', 'data': b'a', 'mtime_ns': T}}
+                    if depth == 2:
+                        tree['top'] = {'k': 'dir'}
+                    tree[docs] = {'k': 'dir'}
+                    tree[docs + '/report.txt'] = {'k': 'file', 'data': b'report', 'mtime_ns': T + 1}
+                    tree[docs + '/notes.txt'] = {'k': 'file', 'data': b'notes', 'mtime_ns': T + 2}
+                    e2e.build_tree(os.path.join(root, 'src'), tree)
+                    dtree = {k: dict(v) for k, v in tree.items()}
+                    # on the destination the folder holds links of the same names that point out of the destination
+                    dtree[docs + '/report.txt'] = {'k': 'link', 'text': ('../' * (depth + 1)).encode() + b'decoy/precious.txt'}
+                    dtree[docs + '/notes.txt'] = {'k': 'file', 'data': b'old notes', 'mtime_ns': T - 5}
+                    e2e.build_tree(os.path.join(root, 'dest'), dtree)
+                    e2e.build_tree(os.path.join(root, 'decoy'), {'': {'k': 'dir'}, 'precious.txt': {'k': 'file', 'data': b'precious', 'mtime_ns': T - 9}})
+                    for dp, dn, fn in os.walk(root):
+                        os.chown(dp, 65534, 65534)
+                        for f in fn:
+                            os.lchown(os.path.join(dp, f), 65534, 65534)
+                    bad = os.path.join(root, side, docs)
+                    before = {k: e2e.snapshot(os.path.join(root, k)) for k in ('src', 'dest', 'decoy')}
+                    os.chmod(bad, mode)
+                    r = e2e.run_cli(binary, [os.path.join(root, 'src') + '/', os.path.join(root, 'dest') + '/'], prefix=UNPRIV, timeout=60)
+                    os.chmod(bad, 0o755)
+                    after = {k: e2e.snapshot(os.path.join(root, k)) for k in ('src', 'dest', 'decoy')}
+                    run.count('unreadable-subfolder:%s:%o:exit:%s' % (side, mode, r['exit']))
+                    run.case(('unreadable-subfolder', side, mode, depth), True, sample={'side': side, 'mode': oct(mode), 'exit': r['exit']})
+                    run.traces_validated += 1
+                    why = None
+                    if r['timed_out']:
+                        why = 'the run did not finish'
+                    elif r['exit'] == 0:
+                        why = 'the run reported success although %s/%s could not be listed' % (side, docs)
+                    elif after['decoy'] != before['decoy'] or after['src'] != before['src']:
+                        why = 'a tree outside the destination changed: %s' % [k for k in ('decoy', 'src') if after[k] != before[k]]
+                    elif any(after['dest'].get(k) != v for k, v in before['dest'].items() if k == docs or k.startswith(docs + '/')):
+                        why = 'entries inside the folder that could not be listed were changed'
+                    if why:
+                        run.fail('C17 (a sub-folder without read permission, %s side, mode %o): %s' % (side, mode, why),
+                                 {'kind': 'unreadable-subfolder', 'side': side, 'mode': oct(mode), 'depth': depth, 'exit': r['exit'], 'text': (r['stdout'] + r['stderr'])[-400:]})
+                    shutil.rmtree(root, ignore_errors=True)
+    finally:
+        shutil.rmtree(base, ignore_errors=True)
+
+
 def spawn_failure_family(run, binary):
     """A thread that cannot be started (pthread_create fails with EAGAIN: the process is at its thread or memory limit) at any of the
     thread creations of a local sync - the two doer threads, the walker threads of either side, the progress thread.  The property's
@@ -264,6 +334,7 @@ def check(run):
     cases = corpus_cases() + gen_cases(run, run.tier)
     run_all(run, cases, binary, jbin)
     spawn_failure_family(run, binary)
+    unreadable_subfolder_family(run, binary)
     return run.finish(search=None)     # every case already ran the property oracle on the implementation
 
 
